@@ -42,11 +42,7 @@ func symxC02() {
 			rt.Quiesce()
 		}
 		// let a writer that is waiting for a free packet identifier proceed
-		for w := 0; w < 2; w++ {
-			symxClockMs += 100
-			symxTick()
-			rt.Quiesce()
-		}
+		symxPoolRetryWait(2)
 		acked := false
 		for _, pk := range pubC.written()[before:] {
 			switch a := pk.(type) {
